@@ -2,10 +2,13 @@
 (* Scrape state machine over PromModel for exhaustive exploration by TLC (C18).  *)
 (* New(options) ; Create(instrument) ; Rec(instrument, attribute set, value) ;   *)
 (* Scr (one scrape: family cache consulted and extended, families exposed).      *)
-(* Every explored edge is printed as  EDGE {path, act, out}: path = the actions  *)
+(* Every explored Scr edge is printed as  EDGE {path, act}: path = the actions   *)
 (* by which TLC first reached the source state (kept in the history variable     *)
-(* hist, hidden from fingerprints by VIEW), out = expected exposition when act   *)
-(* is a scrape.  harness/c18 replays path+act on a real exporter.                *)
+(* hist, hidden from fingerprints by VIEW).  harness/c18 replays path+act on a   *)
+(* real exporter and records what the SDK aggregated and what every scrape       *)
+(* exposed; Trace_PromExport.tla judges the recording with the same PromModel    *)
+(* operators (the expected exposition has alternatives -- sets of admissible     *)
+(* names / merged values -- so the comparison itself is part of the model).      *)
 EXTENDS PromModel, Json
 
 CONSTANTS OptsSet,    \* set of option records
@@ -22,7 +25,7 @@ vars == <<o, started, created, recs, cache, nscr, out, hist, act>>
 
 NoOpts == [scheme |-> "none", noUnits |-> FALSE, noSuffix |-> FALSE, ns |-> <<>>, noTarget |-> FALSE,
            noScope |-> FALSE, resConst |-> FALSE, resKeys |-> <<>>]
-NoOut == [scr |-> FALSE, fams |-> {}, scopeInfo |-> {}]
+NoOut == [scr |-> FALSE, fams |-> {}]
 
 (* ---- the SDK's cumulative aggregation of the recorded measurements (small ints) ---- *)
 RECURSIVE SeqSum(_)
@@ -42,8 +45,9 @@ Point(in, a) ==
        [] d = "hist" -> [base EXCEPT !.count = Len(vs), !.sum = ToString(SeqSum(vs)),
                                      !.counts = [k \in 1..(Len(Bounds) + 1) |->
                                                    Cardinality({j \in 1..Len(vs) : BucketOf(vs[j]) = k})]]
-       [] d = "exphist" -> [base EXCEPT !.count = Len(vs), !.sum = ToString(SeqSum(vs)), !.scale = 99,
-                                        !.zero = Cardinality({j \in 1..Len(vs) : vs[j] = 0})]
+       (* bucket layout of exponential histograms is not computed here (floating point); *)
+       (* the replayed run uses what the SDK reports                                      *)
+       [] d = "exphist" -> [base EXCEPT !.count = Len(vs), !.sum = ToString(SeqSum(vs))]
 Stream(in) ==
   LET used == SelectSeq([k \in 1..Len(ASes) |-> k], LAMBDA a : \E j \in 1..Len(recs) : recs[j].i = in.id /\ recs[j].as = a)
   IN [inst |-> in.id, scope |-> in.scope, data |-> DataOf(in.kind), points |-> [k \in 1..Len(used) |-> Point(in, used[k])]]
@@ -59,7 +63,7 @@ Log(a) == act' = a /\ hist' = Append(hist, a)
 
 New(op) == /\ ~started
            /\ o' = op /\ started' = TRUE /\ out' = NoOut
-           /\ Log([op |-> "New", opts |-> op, res |-> Res, ases |-> ASes])
+           /\ Log([op |-> "New", opts |-> op])
            /\ UNCHANGED <<created, recs, cache, nscr>>
 
 Create(t) == /\ started /\ Len(created) < MaxInst /\ \A k \in 1..Len(created) : created[k].id # t.id
@@ -69,15 +73,14 @@ Create(t) == /\ started /\ Len(created) < MaxInst /\ \A k \in 1..Len(created) : 
 
 Rec(k, a, v) == /\ started /\ Len(recs) < MaxRec /\ k \in 1..Len(created)
                 /\ (DataOf(created[k].kind) = "counter" => v >= 0)
-                /\ (DataOf(created[k].kind) # "exphist" => v # 0)
                 /\ recs' = Append(recs, [i |-> created[k].id, as |-> a, v |-> v]) /\ out' = NoOut
                 /\ Log([op |-> "Rec", inst |-> created[k].id, as |-> a, v |-> v])
                 /\ UNCHANGED <<o, started, created, cache, nscr>>
 
-Scr == /\ started /\ nscr < MaxScr
-       /\ LET r == Scrape(Env, Streams, cache) IN
+Scr == /\ started /\ nscr < MaxScr /\ recs # <<>>
+       /\ LET r == Scrape(Env, Streams, cache, NameMap(Env, Canon), {}) IN
           /\ cache' = r.cache
-          /\ out' = [scr |-> TRUE, fams |-> r.fams, scopeInfo |-> r.scopeInfo]
+          /\ out' = [scr |-> TRUE, fams |-> r.fams]
        /\ nscr' = nscr + 1
        /\ Log([op |-> "Scrape"])
        /\ UNCHANGED <<o, started, created, recs>>
@@ -89,10 +92,9 @@ Next == \/ \E op \in OptsSet : New(op)
 Spec == Init /\ [][Next]_vars
 
 View == <<o, started, created, recs, cache, nscr>>
-EmitEdge == PrintT("EDGE " \o ToJson([path |-> hist, act |-> act', out |-> out']))
+EmitEdge == (act'.op # "Scrape") \/ PrintT("EDGE " \o ToJson([path |-> hist, act |-> act']))
 
 (* ---- the statement on the model ---- *)
-AllFams == out.fams \cup out.scopeInfo
 LegalLabel(n) == n # ""    \* rendered names are legal by construction of LabelName; emptiness is the residual case
 Inv ==
   /\ \A k \in 1..Len(created) : \A ch \in Choices : NameClauses(o, created[k], ch)
@@ -100,10 +102,11 @@ Inv ==
   /\ \A f \in out.fams : \A s \in f.series :
         /\ \A l \in s.labels : LegalLabel(l.n)
         /\ ~s.loose => \A l1, l2 \in s.labels : l1.n = l2.n => l1 = l2     \* consistent label sets
-  /\ \A f \in out.fams : f.names # {"target_info"} =>
-        \E c \in cache : c.name \in f.names /\ c.typ = f.typ /\ c.help = f.help
-  /\ (out.scr /\ ~o.noTarget) => \E f \in out.fams : f.names = {"target_info"}
-  /\ o.noScope => out.scopeInfo = {}
+  /\ \A f \in out.fams : f.name \notin {"target_info", "otel_scope_info"} =>
+        \E c \in cache : c.name = f.name /\ c.typ = f.typ /\ c.help = f.help
+  /\ \A f1, f2 \in out.fams : f1.name = f2.name => f1 = f2
+  /\ (out.scr /\ ~o.noTarget) => \E f \in out.fams : f.name = "target_info"
+  /\ o.noScope => ~\E f \in out.fams : f.name = "otel_scope_info"
 (* the first definition of a family is never replaced *)
 CacheStable == [][cache \subseteq cache']_vars
 =============================================================================
